@@ -782,6 +782,9 @@ QUERY_OBSERVERS = {"contract_stats", "totals", "get_path", "has_preprocessing"}
 
 def run_case(prop, case):
     import cotengra as ctg
+    from sim import seams as _seams
+
+    _seams.hermetic_reset()
 
     log = EventLog()
     counters = {}
